@@ -1,4 +1,5 @@
 import Garr.Retry.Lemmas
+import Garr.Retry.SatLemmas
 /-!
 # C05 — back-off delays stay inside their documented envelope
 
@@ -6,6 +7,9 @@ Property theorems only (helper lemmas live in `Garr/Retry/Lemmas.lean`).  All st
 every parameter value, every attempt number, every outcome of the random source (`ws`) and every
 value of `math.Pow` (`pw`).
 -/
+set_option linter.unusedTactic false
+set_option linter.unreachableTactic false
+
 namespace Garr.Props.C05
 open Garr Garr.Retry
 
@@ -102,5 +106,378 @@ theorem expo_le_max (pw mu : F64) (n i m : Int) (ws : List Nat) (him : i ≤ m) 
 
 -- non-vacuity: the constructor accepts a real range
 example : mkRandom 3 10 = some (.random 3 10) := by simp [mkRandom]
+
+/-! ## Float side: `saturatedMultiply`, exponential growth, jitter band, stack envelope
+
+The float lemmas (rounding is monotone, exact on representable values, …) are in
+`Garr/Num/F64Lemmas.lean`.  `pw` is the value returned by `math.Pow(multiplier, n-1)`. -/
+
+/-! ### Clause 3 — `saturatedMultiply` stays in range -/
+
+/-- for ANY operands (NaN, negative, infinite, …) the result is an `int64`; a product below `-2^63` is
+converted by `CVTTSD2SQ` to `-2^63` -/
+theorem satMul_inI64 (left : Int) (right : F64) : inI64 (satMul left right) := by
+  rw [satMul_eq_sat]
+  unfold inI64 minI64 maxI64
+  split
+  · omega
+  · exact F64.sat_range _
+
+/-- for a non-negative `int64` left operand and a multiplier that is NaN, `+∞` or `≥ 0`, the result is in
+`[0, MaxInt64]` -/
+theorem satMul_range (left : Int) (right : F64) (h0 : 0 ≤ left) (h1 : left ≤ maxI64)
+    (hr : right = .nan ∨ F64.le (F64.zero false) right = true) :
+    0 ≤ satMul left right ∧ satMul left right ≤ maxI64 := by
+  refine ⟨?_, (satMul_inI64 left right).2⟩
+  rw [satMul_eq_sat]
+  split
+  · omega
+  · rename_i hne
+    have hpos : 0 < left := by omega
+    unfold maxI64 at h1
+    rcases hr with rfl | hr
+    · obtain ⟨m, q, hx, _⟩ := F64.ofInt_pos_spec hpos h1
+      rw [hx]
+      have : F64.mul (.fin false m q) .nan = .nan := rfl
+      rw [this, F64.sat_nan]; omega
+    · exact F64.satmul_nonneg hpos h1 hr
+
+/-- the sign hypothesis is needed: a negative multiplier gives a negative result, and a product below
+`-2^63` is converted to `MinInt64` -/
+example : satMul 5 (.fin true (3 * 2^51) (-51)) = -15 := by decide +kernel
+example : satMul (2^62) (.fin true (2^52) (-42)) = minI64 := by decide +kernel
+
+/-! ### Clause 2 — monotone in the multiplier -/
+
+theorem satMul_mono (left : Int) (p p' : F64) (h0 : 0 ≤ left) (h1 : left ≤ maxI64)
+    (h : F64.le p p' = true) : satMul left p ≤ satMul left p' := by
+  rw [satMul_eq_sat, satMul_eq_sat]
+  split
+  · omega
+  · unfold maxI64 at h1
+    exact F64.satmul_mono (by omega) h1 h
+
+/-- the exponential delay is non-decreasing in the value of `math.Pow` (neither NaN: `le` is false on NaN) -/
+theorem expo_monotone (pw pw' mu : F64) (n init max : Int) (ws : List Nat)
+    (h0 : 0 ≤ init) (h1 : init ≤ maxI64) (h : F64.le pw pw' = true) :
+    (next pw n (.expo init max mu) ws).1 ≤ (next pw' n (.expo init max mu) ws).1 := by
+  have := satMul_mono init pw pw' h0 h1 h
+  simp only [next]
+  split
+  · omega
+  · simp only; split <;> split <;> omega
+
+/-! ### Clause 1 — never below the initial delay -/
+
+theorem satMul_ge_left (left : Int) (pw : F64) (h0 : 0 ≤ left) (h1 : left ≤ maxI64)
+    (hpw : F64.le F64.nextUpOne pw = true) : left ≤ satMul left pw := by
+  rw [satMul_eq_sat]
+  split
+  · omega
+  · unfold maxI64 at h1
+    exact F64.satmul_ge (by omega) h1 hpw
+
+/-- **never below initial**: for `0 ≤ init ≤ max ≤ MaxInt64` and `Pow(multiplier, n-1) ≥ nextUp(1)`
+(including `+∞`), every attempt's delay is at least `init` -/
+theorem expo_ge_initial (pw mu : F64) (n init max : Int) (ws : List Nat)
+    (h0 : 0 ≤ init) (him : init ≤ max) (hmax : max ≤ maxI64)
+    (hpw : F64.le F64.nextUpOne pw = true) :
+    init ≤ (next pw n (.expo init max mu) ws).1 := by
+  have := satMul_ge_left init pw h0 (by omega) hpw
+  simp only [next]
+  split
+  · omega
+  · simp only; split <;> omega
+
+/-- the hypothesis `pw ≥ nextUp(1)` is needed: with `pw = 1.0` exactly and `init = 2^53 + 1` the second
+attempt's delay is `2^53 < init` (`float64(init)` rounds down) -/
+example : (next F64.one 2 (.expo (2^53 + 1) maxI64 F64.one) []).1 = 2^53 ∧ (2^53 : Int) < 2^53 + 1 := by
+  decide +kernel
+
+/-- the counterexample needs `init ≥ 2^53`: below `2^53` the conversion `float64(init)` is exact and
+`pw ≥ 1.0` is enough -/
+theorem expo_ge_initial_small (pw mu : F64) (n init max : Int) (ws : List Nat)
+    (h0 : 0 ≤ init) (hsmall : init < 2^53) (him : init ≤ max)
+    (hpw : F64.le F64.one pw = true) :
+    init ≤ (next pw n (.expo init max mu) ws).1 := by
+  have : init ≤ satMul init pw := by
+    rw [satMul_eq_sat]
+    split
+    · omega
+    · exact F64.satmul_ge_small (by omega) hsmall hpw
+  simp only [next]
+  split
+  · omega
+  · simp only; split <;> omega
+
+/-- attempt 2 of a constructor-built exponential back-off (`math.Pow(mu, 1) = mu` exactly): the
+constructor's check `multiplier > 1` already gives the hypothesis of `expo_ge_initial` -/
+theorem expo_ge_initial_attempt2 (mu : F64) (n init max : Int) (b : Backoff) (ws : List Nat)
+    (hmu : F64.IsF64 mu) (hmk : mkExpo init max mu = some b) (hmax : max ≤ maxI64) :
+    init ≤ (next mu n b ws).1 := by
+  unfold mkExpo at hmk
+  split at hmk
+  · cases hmk
+  · split at hmk
+    · cases hmk
+    · split at hmk
+      · cases hmk
+      · rename_i a _ _
+        injection hmk with hmk; subst hmk
+        exact expo_ge_initial mu mu n init max ws (by omega) (by omega) hmax
+          (F64.nextUpOne_le_of_one_lt hmu (by simpa using a))
+
+/-- non-decreasing in the attempt number whenever `math.Pow` is: for attempts `1 ≤ n ≤ n'` with
+`pw = Pow(mu, n-1)`, `pw' = Pow(mu, n'-1)` -/
+theorem expo_monotone_attempts (pw pw' mu : F64) (n n' init max : Int) (ws ws' : List Nat)
+    (h0 : 0 ≤ init) (him : init ≤ max) (hmax : max ≤ maxI64)
+    (hpw' : n' ≠ 1 → F64.le F64.nextUpOne pw' = true) (hle : n ≠ 1 → F64.le pw pw' = true)
+    (hn : 1 ≤ n) (hnn : n ≤ n') :
+    (next pw n (.expo init max mu) ws).1 ≤ (next pw' n' (.expo init max mu) ws').1 := by
+  by_cases h1 : n = 1
+  · by_cases h1' : n' = 1
+    · simp [next, h1, h1']
+    · have := expo_ge_initial pw' mu n' init max ws' h0 him hmax (hpw' h1')
+      have e : (next pw n (.expo init max mu) ws).1 = init := by simp [next, h1]
+      omega
+  · have h1' : n' ≠ 1 := by omega
+    have := satMul_mono init pw pw' h0 (by omega) (hle h1)
+    simp only [next, if_neg h1, if_neg h1']
+    split <;> split <;> omega
+
+/-! ### Clause 4 — the jitter band -/
+
+/-- `0 ≤ minJ ≤ maxJ ≤ MaxInt64` for a positive wrapped delay and rates accepted by the constructor -/
+theorem jitter_bounds (d : Int) (b j : Backoff) (lo hi : F64)
+    (hmk : mkJitter (some b) lo hi = some j) (hd : 0 < d) (hd' : d ≤ maxI64) :
+    0 ≤ satMul d (F64.add F64.one lo) ∧
+    satMul d (F64.add F64.one lo) ≤ satMul d (F64.add F64.one hi) ∧
+    satMul d (F64.add F64.one hi) ≤ maxI64 := by
+  obtain ⟨_, a1, a2, b1, b2, c⟩ := mkJitter_some hmk
+  have hlh := le_of_not_lt a2 b1 c
+  obtain ⟨m1, m2⟩ := F64.add_one_mono a1 hlh b2
+  exact ⟨(satMul_range d _ (by omega) hd' (Or.inr m2)).1, satMul_mono d _ _ (by omega) hd' m1,
+    (satMul_inI64 d _).2⟩
+
+/-- **jitter band**: for a positive wrapped delay `d ≤ MaxInt64` and rates accepted by the constructor, the
+jittered delay lies in `[saturatedMultiply(d, 1+minRate), saturatedMultiply(d, 1+maxRate)]` and is `≥ 0`,
+for every state of the random source (in particular when two words are available for the draw) -/
+theorem jitter_band (pw : F64) (n : Int) (b j : Backoff) (lo hi : F64) (ws : List Nat)
+    (hmk : mkJitter (some b) lo hi = some j)
+    (hd : 0 < (next pw n b ws).1) (hd' : (next pw n b ws).1 ≤ maxI64) :
+    satMul (next pw n b ws).1 (F64.add F64.one lo) ≤ (next pw n (.jitter b lo hi) ws).1 ∧
+    (next pw n (.jitter b lo hi) ws).1 ≤ satMul (next pw n b ws).1 (F64.add F64.one hi) ∧
+    0 ≤ (next pw n (.jitter b lo hi) ws).1 := by
+  simp only [next]
+  generalize next pw n b ws = pr at hd hd'
+  obtain ⟨tmp, ws1⟩ := pr
+  simp only at hd hd' ⊢
+  have hn : ¬ tmp ≤ 0 := by omega
+  simp only [hn, if_false]
+  obtain ⟨h0, h1, h2⟩ := jitter_bounds tmp b j lo hi hmk hd hd'
+  obtain ⟨c1, c2, _, _⟩ := jitter_core _ _ ws1 h0 h1 h2
+  exact ⟨c1, c2, by omega⟩
+
+/-- in the non-overflow case the result is exactly `minJ + draw`, `0 ≤ draw ≤ maxJ - minJ` (no `int64`
+wrap-around happens anywhere); in the overflow case (`minJ = 0`, `maxJ = MaxInt64`) the result is 0 -/
+theorem jitter_exact (pw : F64) (n : Int) (b j : Backoff) (lo hi : F64) (ws : List Nat)
+    (hmk : mkJitter (some b) lo hi = some j)
+    (hd : 0 < (next pw n b ws).1) (hd' : (next pw n b ws).1 ≤ maxI64) :
+    let minJ := satMul (next pw n b ws).1 (F64.add F64.one lo)
+    let maxJ := satMul (next pw n b ws).1 (F64.add F64.one hi)
+    (maxJ - minJ + 1 ≤ maxI64 →
+      (next pw n (.jitter b lo hi) ws).1 = minJ + (nrIncl (maxJ - minJ + 1) (next pw n b ws).2).1 ∧
+      0 ≤ (nrIncl (maxJ - minJ + 1) (next pw n b ws).2).1 ∧
+      (nrIncl (maxJ - minJ + 1) (next pw n b ws).2).1 ≤ maxJ - minJ) ∧
+    (maxI64 < maxJ - minJ + 1 → minJ = 0 ∧ maxJ = maxI64 ∧ (next pw n (.jitter b lo hi) ws).1 = 0) := by
+  simp only [next]
+  generalize next pw n b ws = pr at hd hd'
+  obtain ⟨tmp, ws1⟩ := pr
+  simp only at hd hd' ⊢
+  have hn : ¬ tmp ≤ 0 := by omega
+  simp only [hn, if_false]
+  obtain ⟨h0, h1, h2⟩ := jitter_bounds tmp b j lo hi hmk hd hd'
+  obtain ⟨_, _, c3, c4⟩ := jitter_core _ _ ws1 h0 h1 h2
+  constructor
+  · intro h
+    obtain ⟨e, ra, rb⟩ := c3 h
+    refine ⟨?_, ra, rb⟩
+    rw [e]; split <;> omega
+  · intro h
+    unfold maxI64 at h h2 ⊢
+    exact ⟨by omega, by omega, c4 h⟩
+
+/-- the overflow case is reachable: ±100 % jitter on a delay `≥ 2^62` always yields 0 -/
+example (ws : List Nat) :
+    (next F64.one 1 (.jitter (.fixed (2^62)) (F64.neg F64.one) F64.one) ws).1 = 0 := by
+  have e1 : satMul (2^62) (F64.add F64.one (F64.neg F64.one)) = 0 := by decide +kernel
+  have e2 : satMul (2^62) (F64.add F64.one F64.one) = 2^63 - 1 := by decide +kernel
+  have e3 : wrap64 (wrap64 (2^63 - 1 - 0) + 1) = -(2^63) := by decide
+  have e4 : ¬ ((2:Int)^62 ≤ 0) := by decide
+  simp only [next, e1, e2, e3, e4, if_false]
+  rw [nrIncl_nonpos (by decide)]
+  show (if wrap64 (0 + -(2^63)) < 0 then 0 else wrap64 (0 + -(2^63))) = 0
+  decide
+
+/-! ### Clause 5 — the envelope of a whole stack -/
+
+/-- the parameters are in the constructors' domains, with `int64` bounds -/
+def WF : Backoff → Prop
+  | .fixed d => 0 ≤ d ∧ d ≤ maxI64
+  | .random lo hi => 0 ≤ lo ∧ lo ≤ hi ∧ hi ≤ maxI64
+  | .expo init max mu => F64.lt F64.one mu = true ∧ 0 ≤ init ∧ init ≤ max ∧ max ≤ maxI64
+  | .jitter b lo hi => WF b ∧ mkJitter (some b) lo hi = some (.jitter b lo hi)
+  | .limit b k => WF b ∧ 0 < k
+
+theorem mkFixed_WF {d : Int} {b : Backoff} (h : mkFixed d = some b) (hd : d ≤ maxI64) : WF b := by
+  unfold mkFixed at h
+  split at h
+  · injection h with h; subst h; exact ⟨by omega, hd⟩
+  · cases h
+
+theorem mkRandom_WF {lo hi : Int} {b : Backoff} (h : mkRandom lo hi = some b) (hh : hi ≤ maxI64) : WF b := by
+  unfold mkRandom at h
+  split at h
+  · cases h
+  · split at h
+    · cases h
+    · injection h with h; subst h; exact ⟨by omega, by omega, hh⟩
+
+theorem mkExpo_WF {init max : Int} {mu : F64} {b : Backoff} (h : mkExpo init max mu = some b)
+    (hm : max ≤ maxI64) : WF b := by
+  unfold mkExpo at h
+  split at h
+  · cases h
+  · split at h
+    · cases h
+    · split at h
+      · cases h
+      · rename_i a _ _
+        injection h with h; subst h
+        exact ⟨by simpa using a, by omega, by omega, hm⟩
+
+theorem mkJitter_WF {b j : Backoff} {lo hi : F64} (hb : WF b) (h : mkJitter (some b) lo hi = some j) : WF j := by
+  have := (mkJitter_some h).1
+  subst this
+  exact ⟨hb, h⟩
+
+theorem mkLimit_WF {b j : Backoff} {k : Int} (hb : WF b) (h : mkLimit (some b) k = some j) : WF j := by
+  unfold mkLimit at h
+  simp only at h
+  split at h
+  · cases h
+  · injection h with h; subst h; exact ⟨hb, by omega⟩
+
+/-- everything `Build()` returns from a well-formed base is well-formed -/
+theorem build_WF (ls : List Layer) : ∀ {base b : Backoff}, WF base → build (some base) ls = some b → WF b := by
+  induction ls with
+  | nil =>
+    intro base b hb h
+    have : build (some base) [] = some base := rfl
+    rw [this] at h; injection h with h; subst h; exact hb
+  | cons l ls ih =>
+    intro base b hb h
+    cases l with
+    | limit k =>
+      rw [build_cons_limit] at h
+      cases hm : mkLimit (some base) k with
+      | none => rw [hm, build_none] at h; cases h
+      | some j => rw [hm] at h; exact ih (mkLimit_WF hb hm) h
+    | jitter lo hi =>
+      rw [build_cons_jitter] at h
+      cases hm : mkJitter (some base) lo hi with
+      | none => rw [hm, build_none] at h; cases h
+      | some j => rw [hm] at h; exact ih (mkJitter_WF hb hm) h
+
+-- non-vacuity: a concrete builder stack (exponential ×2, ±50 % jitter, 5 attempts) is accepted and `WF`
+example : ∃ b, build (mkExpo 100 60000 (.fin false (2^52) (-51)))
+      [.jitter (.fin true (2^52) (-53)) (.fin false (2^52) (-53)), .limit 5] = some b ∧ WF b := by
+  have h1 : mkExpo 100 60000 (.fin false (2^52) (-51)) = some (.expo 100 60000 (.fin false (2^52) (-51))) := by
+    decide +kernel
+  have h2 : mkJitter (some (.expo 100 60000 (.fin false (2^52) (-51)))) (.fin true (2^52) (-53)) (.fin false (2^52) (-53))
+      = some (.jitter (.expo 100 60000 (.fin false (2^52) (-51))) (.fin true (2^52) (-53)) (.fin false (2^52) (-53))) := by
+    decide +kernel
+  refine ⟨.limit (.jitter (.expo 100 60000 (.fin false (2^52) (-51))) (.fin true (2^52) (-53)) (.fin false (2^52) (-53))) 5, ?_, ?_⟩
+  · rw [h1, build_cons_jitter, h2, build_cons_limit]; rfl
+  · exact ⟨⟨mkExpo_WF h1 (by decide), h2⟩, by decide⟩
+
+/-- a random back-off with constructor-domain bounds returns a value in `[min, max]` for every state of the
+random source -/
+theorem random_range_any (pw : F64) (n lo hi : Int) (ws : List Nat)
+    (h0 : 0 ≤ lo) (h1 : lo ≤ hi) (hhi : hi ≤ maxI64) :
+    lo ≤ (next pw n (.random lo hi) ws).1 ∧ (next pw n (.random lo hi) ws).1 ≤ hi := by
+  unfold maxI64 at hhi
+  by_cases heq : lo = hi
+  · simp [next, heq]
+  · simp only [next, ne_eq, heq, not_false_eq_true, if_true]
+    have hw : wrap64 (hi - lo) = hi - lo := wrap64_id (by unfold inI64 minI64 maxI64; omega)
+    rw [hw]
+    unfold nr
+    have hnp : ¬ hi - lo ≤ 0 := by omega
+    simp only [hnp, if_false]
+    by_cases hone : hi - lo - 1 ≤ 0
+    · rw [nrIncl_nonpos hone]
+      have : hi - lo - 1 = 0 := by omega
+      simp only [this]
+      have hw1 : wrap64 (0 + 1) = 1 := by decide
+      rw [hw1]
+      have hw2 : wrap64 (1 + lo) = 1 + lo := wrap64_id (by unfold inI64 minI64 maxI64; omega)
+      rw [hw2]; omega
+    · have hb : 0 < hi - lo - 1 := by omega
+      obtain ⟨ha, hb'⟩ := nrIncl_range_any hb ws
+      generalize (nrIncl (hi - lo - 1) ws) = pr at ha hb'
+      obtain ⟨r, ws'⟩ := pr
+      simp only at ha hb' ⊢
+      have hw1 : wrap64 (r + 1) = r + 1 := wrap64_id (by unfold inI64 minI64 maxI64; omega)
+      rw [hw1]
+      have hw2 : wrap64 (r + 1 + lo) = r + 1 + lo := wrap64_id (by unfold inI64 minI64 maxI64; omega)
+      rw [hw2]; omega
+
+/-- **stack envelope / no overflow**: every delay returned by a stack built by the constructors (with
+`int64` parameters) lies in `[-1, MaxInt64]` — for every attempt, every state of the random source, and
+every value of `math.Pow` that is NaN, `+∞` or `≥ 0` (`Pow` of a multiplier `> 1` is never negative) -/
+theorem stack_envelope (pw : F64) (n : Int) (hpw : pw = .nan ∨ F64.le (F64.zero false) pw = true) :
+    ∀ (b : Backoff) (ws : List Nat), WF b →
+      -1 ≤ (next pw n b ws).1 ∧ (next pw n b ws).1 ≤ maxI64 := by
+  intro b
+  induction b with
+  | fixed d => intro ws h; obtain ⟨a, c⟩ := h; simp only [next]; omega
+  | random lo hi =>
+    intro ws h; obtain ⟨a, c, d⟩ := h
+    have := random_range_any pw n lo hi ws a c d
+    omega
+  | expo init max mu =>
+    intro ws h; obtain ⟨_, a, c, d⟩ := h
+    have := satMul_range init pw a (by omega) hpw
+    simp only [next]
+    split
+    · simp only; omega
+    · simp only; split <;> omega
+  | jitter inner lo hi ih =>
+    intro ws h; obtain ⟨hb, hmk⟩ := h
+    have hin := ih ws hb
+    by_cases hle : (next pw n inner ws).1 ≤ 0
+    · rw [jitter_stop_passthrough pw n inner lo hi ws hle]; exact hin
+    · obtain ⟨_, c2, c3⟩ := jitter_band pw n inner _ lo hi ws hmk (by omega) hin.2
+      have := (satMul_inI64 (next pw n inner ws).1 (F64.add F64.one hi)).2
+      omega
+  | limit inner k ih =>
+    intro ws h; obtain ⟨hb, _⟩ := h
+    have hin := ih ws hb
+    simp only [next]
+    split
+    · simp only; unfold maxI64; omega
+    · exact hin
+
+/-- the envelope hypothesis on `pw` is needed: a negative "power" makes an exponential back-off negative -/
+example : (next (.fin true (3 * 2^51) (-51)) 2 (.expo 5 100 F64.one) []).1 = -15 := by decide +kernel
+
+/-- **no_overflow** for everything `Build()` can return -/
+theorem no_overflow (pw : F64) (n : Int) (hpw : pw = .nan ∨ F64.le (F64.zero false) pw = true)
+    (base b : Backoff) (ls : List Layer) (ws : List Nat) (hbase : WF base)
+    (hb : build (some base) ls = some b) : inI64 (next pw n b ws).1 ∧ -1 ≤ (next pw n b ws).1 := by
+  have := stack_envelope pw n hpw b ws (build_WF ls hbase hb)
+  unfold inI64 minI64
+  omega
 
 end Garr.Props.C05
